@@ -454,8 +454,6 @@ package core
 //@ iface catalog.Interaction.Path()
 //@   modifies nothing
 //@   ghostensures ret == ipath(self)
-//@ func (catalog.Path).String
-//@   inline
 //@ func (*catalog.HTTPInteraction).SetPathVariables
 //@   inline
 
@@ -523,3 +521,17 @@ package core
 //@   loop 1 invariant forall k :: i <= k && k < len(core.rawPathVariables) ==> core.rawPathVariables[k].schema.ContentJSight != nil
 //@   loop 2 invariant 0 <= i && i < len(core.rawPathVariables) && core.rawPathVariables[i].schema.ContentJSight != nil && core.catalog != nil && core.catalog.UserTypes != nil && core.catalog.UserTypes.mx == 0
 //@   loop 2 invariant forall k :: i < k && k < len(core.rawPathVariables) ==> core.rawPathVariables[k].schema.ContentJSight != nil
+
+// ---------------------------------------------------------------- Tags is checked where it stands (C11: undefined tag, second singleton child)
+//@ func (*catalog.Catalog).CheckTags
+//@   inline
+//@ func (core.JApiCore).addTags
+//@   tag C11 C01
+//@   requires DirWF(d) && !isnil(d.includeTracer) && core.catalog != nil && core.catalog.Tags != nil && core.catalog.Tags.mx == 0 && TagsNamed(core.catalog.Tags)
+//@   requires d.Parent != nil ==> (forall k :: 0 <= k && k < len(d.Parent.Children) ==> d.Parent.Children[k] != nil)
+//@   ensures [C11] (exists k :: 0 <= k && k < len(d.unnamedParameters) && !has(core.catalog.Tags.data, d.unnamedParameters[k])) ==> ret != nil
+//@   ensures [C11] d.Parent != nil && (exists k :: 0 <= k && k < len(d.Parent.Children) && d.Parent.Children[k].type_ == 29 && (forall j :: 0 <= j && j <= k ==> d.Parent.Children[j] != d)) ==> ret != nil
+//@   ensures [C02] ret != nil ==> ret.file == d.keywordCoords.file && ret.index == d.keywordCoords.begin
+//@   loop 1 invariant 0 - 1 <= rangeindex && rangeindex <= rangelen - 1 && rangelen == len(d.Parent.Children) && d.Parent != nil && core.catalog.Tags.mx == 0
+//@   loop 1 invariant forall j :: 0 <= j && j <= rangeindex ==> d.Parent.Children[j] != d && d.Parent.Children[j].type_ != 29
+//@   loop 1 decreases rangelen - rangeindex
